@@ -90,6 +90,8 @@ pub struct Obs {
     /// `events.len()` after every poll that returned Pending without any sink having answered Pending in it (the router
     /// is waiting for streams or for the registration channel only: nobody's sink holds its waker)
     pub rest_points: Vec<usize>,
+    /// the child events of each executed poll, as a range of `events`
+    pub poll_ranges: Vec<(usize, usize)>,
     /// per mock id: the stream script as given ('i' item, 'x' error item, 'p' pending), in the order it is consumed
     pub scripts: BTreeMap<usize, Vec<char>>,
     pub line: String,
@@ -123,7 +125,7 @@ pub fn run_scenario(events: &[&str]) -> Obs {
     let waker = wk.clone().into();
     let mut cx = Context::from_waker(&waker);
     let mut segs: Vec<String> = vec![];
-    let mut o = Obs { scripts: BTreeMap::new(), rest_points: vec![], line: String::new(), annotated: vec![], panicked: None, spun: false, done: false, events: vec![], n_clients: 0, n_servers: 0, last_pending: false, sleeping_for_good: false, last_any_child_pending: false, last_sink_pending: false, polled_after_close: false, closed: false, closed_at: None, server_enq_at: vec![], last_poll_start: 0 };
+    let mut o = Obs { poll_ranges: vec![], scripts: BTreeMap::new(), rest_points: vec![], line: String::new(), annotated: vec![], panicked: None, spun: false, done: false, events: vec![], n_clients: 0, n_servers: 0, last_pending: false, sleeping_for_good: false, last_any_child_pending: false, last_sink_pending: false, polled_after_close: false, closed: false, closed_at: None, server_enq_at: vec![], last_poll_start: 0 };
     let mut first = true;
     // every turn of the router's loop consumes a scripted answer or a registration: a poll that makes more child calls
     // than a generous multiple of all there is to consume is spinning
@@ -176,7 +178,9 @@ pub fn run_scenario(events: &[&str]) -> Obs {
             };
             let shown: Vec<String> = evs.iter().take(if o.spun { 40 } else { usize::MAX }).map(tag).collect();
             segs.push(format!("poll:{}->{r}[w:{}]", shown.join(","), holders.join(",")));
+            let from = o.events.len();
             o.events.extend(evs);
+            o.poll_ranges.push((from, o.events.len()));
             if r == "P" && !o.last_sink_pending { o.rest_points.push(o.events.len()); }
         } else {
             panic!("bad reqrep event {ev}");
@@ -489,6 +493,19 @@ pub fn monitor(o: &Obs) -> Result<(), String> {
             }
         }
     }
+    // C09: a sink that answers Pending holds the router's waker: the step ends there (every readiness / flush / close of a
+    // sink is awaited with `ready!`). A step in which the same sink answers Pending again and again is looping on a busy
+    // peer instead of yielding — for as long as the peer stays busy (four times: no bounded second look explains that)
+    for (a, b) in &o.poll_ranges {
+        let mut busy: BTreeMap<usize, usize> = BTreeMap::new();
+        for e in &o.events[*a..*b] {
+            if let Ev::SinkReady(i, A::Pending) | Ev::SinkFlush(i, A::Pending) | Ev::SinkClose(i, A::Pending) = e {
+                let n = busy.entry(*i).or_insert(0);
+                *n += 1;
+                if *n >= 4 { return Err(format!("C09: within one step {} answered Pending {n} times (it held the waker from the first): the step loops on a busy peer instead of yielding", who(*i, true))); }
+            }
+        }
+    }
     // C16: bounded whatever the peers do: once the channel is closed the router finishes with what it has taken; it does not
     // go on serving for as long as requestors (or the replier) have frames ready (c16_reqrep_shutdown_completes)
     if let Some(at) = o.closed_at {
@@ -667,6 +684,12 @@ pub fn run(cfg: &Cfg) {
             cases.push(format!("rr +s_/{quiet} +c_/{},p,p,p,p poll poll poll poll +s_/p,p,p,p +c_/i:m7000,p,p poll poll poll", reqs.join(",")));
             cases.push(format!("rr +sf=RE/{quiet},p,p,p,p +c_/{},p,p,p,p poll poll poll poll +s_/p,p,p,p +c_/i:m7000,p,p poll poll poll", reqs.join(",")));
         }
+        // a peer that stays busy for many looks (requestor sink with a reply waiting for it, replier sink with a request
+        // waiting, a late replier being turned away): every look costs a step
+        for c in ["rr +cr=PPPPPPPPR/i:m1,p,p,p,p,p,p,p,p,p,p +s_/i:m2[cid=0],p,p,p,p,p,p,p,p,p,p poll poll poll poll poll poll poll poll poll poll poll poll",
+                  "rr +sr=PPPPPPPPR/p,p,p,p,p,p,p,p,p,p,p +c_/i:m1,i:m2,p,p,p,p,p,p,p,p,p,p poll poll poll poll poll poll poll poll poll poll poll poll",
+                  "rr +s_/p,p,p,p,p,p,p,p,p,p,p +sr=PPPPPPPPR/p +c_/i:m1,p,p,p,p,p,p,p,p,p,p poll poll poll poll poll poll poll poll poll poll poll poll",
+                  "rr +cf=PPPPPPPPR/p,p,p,p,p,p,p,p,p,p,p +s_/i:m2[cid=0],p,p,p,p,p,p,p,p,p,p poll poll poll poll poll poll poll poll poll poll poll poll"] { cases.push(c.to_string()); }
         // shutdown while a requestor (or the replier) has a standing backlog: the router finishes with what it has taken
         for c in ["rr +s_/p,p,p +c_/p,i:m9* poll close poll poll poll", "rr +c_/p,i:m9* poll close poll poll", "rr +c_/p +s_/p,i:m9[cid=0]* poll close poll poll poll",
                   "rr +s_/p,p,p +c_/i:m1,p,i:m9* +c_/p,i:m8* poll close poll poll poll"] { cases.push(c.to_string()); }
